@@ -773,6 +773,8 @@ class Canon:
             if c[0] != 'cmp':
                 raise Unknown('while condition ' + show(c))
             l, r = c[2], c[3]
+            if r[0] == 'carried' and l[0] == 'call' and l[1] == S('len') and c[1] == 'Gt':
+                l, r, c = r, l, ('cmp', 'Lt', r, l)                 # len(row) > i
             if l[0] == 'carried' and r[0] == 'call' and r[1] == S('len') and c[1] == 'Lt':
                 idxvar, row = l[1], r[2][0]
             elif l[0] == 'carried' and c[1] in ('LtE', 'Lt'):
@@ -800,7 +802,7 @@ class Canon:
         if not (val[0] == 'attr' and val[1] == nxt):
             raise Unknown('scan key is not an attribute of row[index] read after the index was advanced')
         kg = upd[0][3][-1][1]
-        if kg != CMP('Lt', ('prefix', idxvar, wid, True), CALL(S('len'), [row])):
+        if kg not in (CMP('Lt', ('prefix', idxvar, wid, True), CALL(S('len'), [row])), CMP('Gt', CALL(S('len'), [row]), ('prefix', idxvar, wid, True))):
             raise Unknown('scan key update is not guarded by index < len(row)')
         keyattr = val[2]
         # order of statements: the accumulations on row[idx] must come before the increment (checked by the caller
